@@ -14,9 +14,16 @@
 package udp
 
 import (
+	"errors"
 	"hash/crc32"
 	"net"
 )
+
+// maxBodyLength is the largest body a datagram can carry after the 8 bytes header.
+const maxBodyLength = 65507 - 8
+
+// ErrResponseEntityTooLarge represents a error.
+var ErrResponseEntityTooLarge = errors.New("hprose/rpc/udp: response entity too large")
 
 type data struct {
 	Index int
